@@ -121,6 +121,10 @@ TAppendReq ==
           /\ (Has("result") => (ev'.result = Ev.result /\ ev'.respTerm = Ev.respTerm /\ ev'.respLast = Ev.respLast))
        \/ \E k \in 1..Len(orph) : orph[k].from = Ev.i /\ orph[k].to = Ev.j /\ Step(OrphanReq(k))
             /\ (Has("result") => (ev'.result = Ev.result /\ ev'.respTerm = Ev.respTerm /\ ev'.respLast = Ev.respLast))
+       \* a request written on a connection whose server side died is never handled (the specification dropped it at the crash)
+       \/ /\ Has("lost") /\ l < Len(Trace) /\ l' = l + 1 /\ Prophecy
+          /\ UNCHANGED <<node, rpcs, orph, gh, ctr, ev, hist>>
+          /\ \A n \in Node : NodeMatches(node[n], JNode(Rec, n))
 
 TAppendResp == (IsEv("appendResp") \/ IsEv("snapResp")) /\ Step(AppendResp(Ev.i, Ev.j))
 TTakeSnap   == IsEv("takeSnapshot") /\ Step(TakeSnapshotOp(Ev.n, Ev.threshold))
